@@ -78,6 +78,16 @@ Theorem C09_wakeup_ok_on_reachable_states : forall (n : nat) (children : nat -> 
 Proof. exact wakeup_ok_reachable. Qed.
 Print Assumptions C09_wakeup_ok_on_reachable_states.
 
+Theorem C09_queued_items_get_runners : forall (n : nat) (children : nat -> list nat) (inits : list nat),
+  work_do_min_n <= n ->
+  forall s : state, reachable n children inits s ->
+  exists (sch : list (nat * nat)) (s' : state),
+    run n children sch s = Some s' /\ (todo s' = [] \/ cnt is_run (pcs s') = n) /\
+    added s' = added s /\ finished s' = finished s /\ length sch + length (todo s') = length (todo s) /\
+    cnt is_run (pcs s') = cnt is_run (pcs s) + length sch.
+Proof. exact queued_items_get_runners. Qed.
+Print Assumptions C09_queued_items_get_runners.
+
 Theorem C09_stuck_is_final : forall (n : nat) (children : nat -> list nat) (inits : list nat),
   work_do_min_n <= n ->
   forall s : state, reachable n children inits s ->
